@@ -13,6 +13,7 @@ ID = "C02"
 BUDGET = {"quick": 700, "thorough": 2500}
 TECHNIQUE = 'Hypothesis-generated (polynomial, argument assignment) pairs vs exact model evaluation/substitution; staged-evaluation and spelling metamorphic relations'
 LEVEL_TEXT = 'Full, partial, positional/keyword/None assignments with Python numbers, numpy scalars of every width, broadcasting arrays and polynomial arguments are evaluated in the exact model and compared (shape rule, type rule, values); error cases must raise TypeError.'
+FUZZ_RUNS = {"thorough": 3000}  # atheris/libFuzzer campaign over the same strategy and oracle
 RULE = (
     "polynomial arrays (0-d..3-d, 1-3 names, <= 5 terms, exponents <= 3, int/float/complex) x argument "
     "assignments: per name omitted / positional / keyword / None placeholder; values are Python int "
